@@ -1,20 +1,23 @@
 """Mechanism classifiers: attribute a violation to a listed mechanism by a structural predicate on the
-witness (and, where one exists, a counterfactual rewrite).  Returning None means "unattributed" and the
-violation is reported as a VIOLATION.  Classifiers are deliberately narrow.
+witness and, where one exists, a counterfactual rewrite that removes exactly that construct while
+preserving the witness execution.  Returning None means "unattributed" -> reported as a VIOLATION.
+Classifiers are deliberately narrow; the known-findings file is never consulted or written here.
 """
 from vt.ref.cfg import RefCFG
 
+INT_PUSH = ("int", "pushint", "intc", "intc_0", "intc_1", "intc_2", "intc_3")
+MIRROR = {"<": ">", "<=": ">=", ">": "<", ">=": "<="}
+
 
 def c04(v):
-    """prev-list corruption caused by pruning a dead block that has two or more live successors."""
+    """prev-list corruption caused by pruning a dead block that has two or more successors."""
     if v["kind"] not in ("prev-outside-graph", "next-prev-mismatch"):
         return None
     prog = [("#pragma", "version", v["version"])] + [tuple(i) for i in v["prog"]]
     ref = RefCFG(prog)
     for k in range(ref.n):
         if k not in ref.retained and prog[k][0] in ("bz", "bnz", "switch", "match"):
-            live = [s for s in ref.local_succ[k] if s in ref.retained]
-            if len(set(live)) >= 2:
+            if len(set(ref.local_succ[k])) >= 2:
                 return "dead-block-multi-successor-pruning"
     return None
 
@@ -30,8 +33,119 @@ def c05(v):
     return None
 
 
-# ---------------------------------------------------------------- fragment checks (contexts, detectors)
+# ---------------------------------------------------------------- rewrites for fragment programs
 
-def ctx(v, case, rng):
-    """Mechanism of a context-soundness violation (C06-C10)."""
+def r_swap_int_field_operands(prog):
+    """`C; global GroupSize|txn GroupIndex; <op>`  ->  `field; C; <mirrored op>` (same meaning, same length)."""
+    out = list(prog)
+    n = 0
+    for k in range(len(out) - 2):
+        a, b, c = out[k], out[k + 1], out[k + 2]
+        if a[0] in INT_PUSH and b in (("global", "GroupSize"), ("txn", "GroupIndex")) and c[0] in MIRROR:
+            out[k], out[k + 1], out[k + 2] = b, a, (MIRROR[c[0]],)
+            n += 1
+    return out, n
+
+
+def r_opaque_reads(prog, fields):
+    """Insert `int 0; +` after every read of one of `fields` (value unchanged, pattern no longer recognisable)."""
+    out = []
+    n = 0
+    for ins in prog:
+        out.append(ins)
+        f = None
+        if ins[0] == "txn":
+            f = ins[1]
+        elif ins[0] == "gtxn":
+            f = ins[2]
+        elif ins[0] == "gtxns":
+            f = ins[1]
+        if f in fields:
+            out.extend([("int", 0), ("+",)])
+            n += 1
+    return out, n
+
+
+def r_append_return(prog):
+    """Make 'running past the last instruction' explicit: append `return` (accepting runs stay accepting)."""
+    if prog[-1][0] in ("return", "err", "b", "retsub"):
+        return list(prog), 0
+    return list(prog) + [("return",)], 1
+
+
+def r_hoist_abs_read(prog, case, ex):
+    """If every absolute-index read executed by the witness sits inside a loop (its instruction can reach itself
+    in the local graph), repeat one such read at the very start of the program (the witness stays accepting:
+    the same read succeeded later).  Not applicable (0 changes) if some executed read is outside loops."""
+    from vt.ref import avm
+    from vt.gen import teal as T
+    ref = RefCFG(list(prog))
+    r = avm.run(list(prog), ex["group"], ex["own"], labels=T.labels_of(prog))
+    reads = case.reads.abs_read_pcs if len(prog) == len(case.prog) else None
+    if reads is None:
+        from vt.gen.inputs import Reads
+        reads = Reads(list(prog)).abs_read_pcs
+    executed = [pc for pc in r["trace"] if pc in reads and reads[pc] != ex["own"]]
+    if not executed:
+        return list(prog), 0
+
+    def in_loop(k):
+        seen, work = set(), list(ref.local_succ[k])
+        while work:
+            x = work.pop()
+            if x == k:
+                return True
+            if x in seen:
+                continue
+            seen.add(x)
+            work.extend(ref.local_succ[x])
+        return False
+
+    if not all(in_loop(pc) for pc in executed):
+        return list(prog), 0
+    i = reads[executed[0]]
+    head = [("gtxn", i, "Amount"), ("pop",)]
+    if prog and prog[0][0] == "intcblock":
+        return [prog[0]] + head + list(prog[1:]), 1
+    return head + list(prog), 1
+
+
+TYPE_DIM = {"Pay": ("OnCompletion", "ApplicationID"), "Axfer": ("OnCompletion", "ApplicationID"),
+            "ApplUpdateApplication": ("TypeEnum",), "ApplDeleteApplication": ("TypeEnum",)}
+DET_LABEL = {"can-close-account": "Pay", "can-close-asset": "Axfer", "is-updatable": "ApplUpdateApplication",
+             "is-deletable": "ApplDeleteApplication", "unprotected-updatable": "ApplUpdateApplication",
+             "unprotected-deletable": "ApplDeleteApplication"}
+
+
+def fragment(v, case, reeval):
+    """Attribute a fragment-check violation (needs v['exec'] = witness input and v['ckey'])."""
+    ex = v.get("exec")
+    if not ex:
+        return None
+    target = (v["kind"], v.get("ckey"))
+    chain = [("int-field-constant-first-operand", r_swap_int_field_operands),
+             ("end-of-program-fallthrough-not-an-exit", r_append_return)]
+    label = v.get("type_label") or DET_LABEL.get(v.get("detector"))
+    if label in TYPE_DIM:
+        chain.append(("txn-type-cross-dimension-label-drop", lambda p, f=TYPE_DIM[label]: r_opaque_reads(p, f)))
+    if v.get("detector") == "group-size-check":
+        chain.append(("group-size-absolute-read-only-inside-loop", lambda p, c=case, e=ex: r_hoist_abs_read(p, c, e)))
+    cur = list(case.prog)
+    base = reeval(cur, case.version, ex)
+    if base is None or target not in base:
+        v["classifier_note"] = "witness did not reproduce in isolation"
+        return None
+    for name, R in chain:
+        nxt, changed = R(cur)
+        if not changed:
+            continue
+        got = reeval(nxt, case.version, ex)
+        if got is None:
+            continue
+        if target not in got:
+            return name
+        cur = nxt
     return None
+
+
+ctx = fragment
